@@ -46,12 +46,13 @@ ASSUMPTIONS = [
     'DECISION POINTS of the generator are proved: gen_type_params gives no bound when cfg.prob.bounded_type_parameters == 0 '
     'and no variance unless asked; gen_func_decl chooses no type parameters when cfg.prob.parameterized_functions == 0 and '
     'never asks for variance; every call of gen_type_params in src/ asks for variance only for kotlin/scala. That the later '
-    'copies / substitutions / TypeUpdater keep J3-J6, and the CLI wiring of src/args.py, are the bounded part (generated '
-    'programs under the 16 switch combinations)',
+    'copies / substitutions / TypeUpdater keep J3-J6 is the bounded part (generated programs under the 16 switch '
+    'combinations). The CLI wiring is proved: the configuration block of src/args.py, executed symbolically, leaves the two '
+    'boolean switches equal to their flags and the two probabilities at 0 when the flag is given, for every combination of '
+    'flags (z3; a failing wiring obligation carries the flag combination as counter-model)',
 ]
 NOT_UNDER_CONTRACT = ['J3-J6 propagation sites: _gen_type_params_from_existing, _remove_unused_type_params, '
-                      'ast.FunctionDeclaration.__init__, TypeUpdater.update_type, substitution copies (bounded only)',
-                      'src/args.py (CLI wiring: bounded only)']
+                      'ast.FunctionDeclaration.__init__, TypeUpdater.update_type, substitution copies (bounded only)']
 
 
 def custom_proof(tier):
@@ -106,6 +107,8 @@ def custom_proof(tier):
                                                 reason='generation switch %s is assigned outside src/args.py' % e.attr))
                 walk(ch, q)
         walk(tree, mod)
+    from pyvc import statecheck
+    out += statecheck.switch_wiring_obligations(REPO)
     out.append(dict(name='src/switches-only-assigned-in-args', function='src.args', lineno=0, kind='proof', status='proved',
                     secs=0, backend='syntactic', reason='')) if not any('switch-not-assigned' in o['name'] for o in out) else None
     return out
